@@ -116,9 +116,36 @@ TEXTS = {
           'tables, default hosts, classes).',
           'inet-address, socket-address, timedelta, float, string-list are NOT under contract: bounded stand-in only (17 M strings '
           'per quick run). Assumed: int()/float() grammar is CPython\'s; socket.inet_pton defines valid IPv6.' + STANDIN),
- 'C10': T('other', 'bounded stand-in only', BOUNDED_ONLY + ' 110 generated rule-satisfying schema documents, every single '
-          'rule-violating edit at every position, sampled pairs.', 'xml.sax assumed.'),
- 'C11': T('other', 'bounded stand-in only', BOUNDED_ONLY + ' 1600 composed-vs-expanded scenarios x 40 texts.', 'xml.sax, import system assumed.'),
+ 'C10': T('other', PV + ' for the rules enforced by the info.py constructors and by the element handlers of schema.py; SAX dispatch and XML parsing assumed; bounded stand-in for the document-level statement',
+          'Proved (raised as SchemaError when the schema is built, for all inputs): occurrence bounds consistent (BaseInfo.__init__); '
+          'unique key names and attribute names per container, inherited ones included (SectionType._add_child / addkey / addsection with '
+          'the representation invariant "key map and attribute map cover the children", deriveSectionType copying both maps); unique type '
+          'names (addtype, createSectionType); multisections named * or + and carrying an attribute (SectionInfo.__init__, '
+          'start_multisection); defaults keyed exactly when the key is a wildcard, one default per key, no colliding default keys after '
+          'normalisation (adddefault, add_valueinfo, computedefault = renorm_defaults fold); no default attribute on a required key '
+          '(start_key; needed as precondition of addkey); keys never named *, names / attributes / handler names well-formed, '
+          'attribute names derived from the key name (get_name_info, get_key_info); required is yes or no (get_required, '
+          'get_ordinality); section slots name a type already defined (get_sectiontype); extends names a concrete type, implements an '
+          'abstract one (start_sectiontype); abstract types get an unused well-formed name (start_abstracttype).',
+          'NOT under contract: startElement / endElement / characters (nesting table, stray text), get_datatype (datatype names), '
+          'start_import: bounded stand-in (110 generated rule-satisfying documents, every single rule-violating edit at every '
+          'position). The handlers are verified under the precondition that the SAX dispatch put them inside the right element. '
+          'Assumptions: xml.sax; key types never normalise a name to "", "*" or "+". Open findings: four KF-C10-*.' + STANDIN),
+
+ 'C11': T('other', PV + ' for the operations the composition features perform; the document-expansion lemma is not mechanised: bounded stand-in',
+          'Proved: deriveSectionType(base, ...) returns a type whose children are the base children in order - the very same info objects, '
+          'except wildcard keys, which are NEW objects with the same declaration whose defaults are the defaults AS WRITTEN re-normalised '
+          'under the derived key type (prepare_raw_defaults keeps the written defaults once; computedefault = renorm folds; loop with '
+          'copy frames) - with the base key map and attribute map, its own key type / datatype / value type, the base unchanged (frame); '
+          'start_sectiontype inherits key type and datatype unless overridden (through the assumed get_sect_typeinfo), registers the '
+          'type as implementer only when "implements" is written on it; prefixes compose outward (push_prefix / pop_prefix / '
+          'get_classname against new_prefix); start_schema: own key type when declared or nothing to inherit, else the bases\' which '
+          'must agree, and a base schema reports to the schema extending it the key type / datatype it ENDS UP with; components are '
+          'recorded once (addComponent / hasComponent) and parsed with their own URL into this schema (loadComponent).',
+          'The statement "behaves identically to its expansion for every text" is a lemma over these operations that is not '
+          'mechanised: bounded stand-in (1600 composed-vs-expanded scenarios x 40 texts). start_import is not under contract. '
+          'xml.sax, import system assumed. Open finding KF-C11-keytype-override.' + STANDIN),
+
  'C12': T('other', PV + ' for the slot search and the loader\'s type check; bounded stand-in for registration and %import',
           'Proved: an abstract slot takes a section iff its type name is a key of the slot type\'s implementer table '
           '(getsectioninfo/slot_case, getsubtype, hassubtype), for a fixed-name slot additionally the looked-up type must carry that '
@@ -163,32 +190,48 @@ TEXTS = {
           'basic-key conversion.',
           'The per-item entries appended by constuct (schema order, value identical to the tree\'s) are part of its assumed '
           'contract: bounded stand-in (480 000 handler placements / maps per quick run).' + STANDIN),
- 'C17': T('other', 'bounded stand-in only', BOUNDED_ONLY + ' 1.7 M texts: str() + reload must be a fixed point.', ''),
- 'C18': T('other', PV + ' for isPath / normalizeURL / _url_from_file / join sites; urllib and the file system assumed; bounded stand-in',
-          'Proved: isPath(s) iff s has no RFC 3986 scheme or a one-letter one (automaton equivalence for _pathsep_rx); normalizeURL '
-          'turns a path into "file://" + pathname2url(abspath(path)), returns the fragment-free URL and raises ConfigurationError '
-          'iff there is a fragment; _url_from_file gives no URL for unnamed or <pseudo> files, else the file URL of the absolute '
-          'path; the parser URL is the URL of its resource and %include is joined against it.',
+ 'C17': T('other', PV + ' for the loader side; the serialiser Section.__str__ is not under contract: bounded stand-in decides the round trip',
+          'Proved: the schema-less context records what the parser delivers - addValue appends the value to the list of its key in file '
+          'order and changes nothing else, startSection creates an empty section of the given (lower-cased) type and name and appends it '
+          'to its container in file order; %define and %include are refused (NotImplementedError), never dropped; the parser-side '
+          'clauses the round trip relies on (start_section / end_section / handle_key_value: header shape, empty form, key = maximal '
+          'run) are the C03 obligations.',
+          'Section.__str__ and the round-trip lemma are not under contract: bounded stand-in (1.7 M texts: str() + reload must be a '
+          'fixed point).' + STANDIN),
+
+ 'C18': T('other', PV + ' for the URL helpers and every join site; urllib and the file system assumed; bounded stand-in',
+          'Proved: url.urlnormalize / urldefrag / urljoin produce the file:/// form (spec file3) and nothing else changes; isPath(s) iff s '
+          'has no RFC 3986 scheme or a one-letter one (automaton equivalence for _pathsep_rx); normalizeURL turns a path into "file://" + '
+          'pathname2url(abspath(path)), returns the fragment-free URL and raises ConfigurationError iff there is a fragment; '
+          '_url_from_file gives no URL for unnamed or <pseudo> files; the parser URL is the URL of its resource; %include is joined '
+          'against it (handle_include), schema extends references against the URL of the schema that contains them (start_schema), and '
+          'a base schema / component is parsed with ITS OWN url (extendSchema, loadComponent: ghost assertions at the constructor calls).',
           'The agreement of the four ways of naming a file is a consequence of ASSUMED contracts (urllib, os.path, file system); '
-          'url.urlnormalize/urljoin and the schema-side join sites (schema src / extends) are not under contract: bounded stand-in '
-          '(75 000 loads over directory layouts x four ways of naming the resource).' + STANDIN),
- 'C19': T('other', PV + ' with a ghost counter of open files; schema-side loaders not under contract: exhaustive fault enumeration stand-in',
+          'start_import (import src) is not under contract: bounded stand-in (75 000 loads over directory layouts x four ways of '
+          'naming the resource).' + STANDIN),
+
+ 'C19': T('other', PV + ' with a ghost counter of open files; SchemaLoader.loadResource / start_import not under contract: exhaustive fault enumeration stand-in',
           'Proved with the ghost GHOST.open_files (every open adds 1, every close of an open file subtracts 1): Resource.close / '
           '__exit__ close the file once; openResource returns exactly one new open resource and closes the raw URL stream on every '
-          'path (read failure, decode failure); loadURL, loadFile, ConfigLoader.loadResource, includeConfiguration, _parse_resource '
-          'and the parser functions on the way (parse, handle_directive, handle_include, handle_import) leave the counter unchanged '
-          'on normal AND on every exceptional exit (loadFile additionally closes the caller\'s file).',
-          'SchemaLoader.loadResource, schema.parseResource / parseComponent, importSchemaComponent are not under contract (assumed '
-          'interface contract of the context): bounded stand-in enumerates every single failure point over 4 504 scenarios. Known '
-          'finding KF-C19-loader-reuse.' + STANDIN),
- 'C20': T('other', PV + ' for level names, create-once factories and <logfile> option checking; logging package assumed; bounded stand-in for the rest',
+          'path (read failure, decode failure); loadURL, loadFile, ConfigLoader.loadResource, includeConfiguration, _parse_resource, '
+          'the parser functions on the way (parse, handle_directive, handle_include, handle_import), SchemaParser.extendSchema and '
+          'BaseParser.loadComponent leave the counter unchanged on normal AND on every exceptional exit (loadFile additionally closes '
+          'the caller\'s file); includeConfiguration restores its include stack on every exit ("leaves nothing behind").',
+          'SchemaLoader.loadResource (cache), schema.parseResource / parseComponent, importSchemaComponent, start_import are not under '
+          'contract (assumed interface contract of the context; xml.sax.parse assumed to leave the counter unchanged): bounded '
+          'stand-in enumerates every single failure point over 4 504 scenarios. Known finding KF-C19-loader-reuse.' + STANDIN),
+
+ 'C20': T('other', PV + ' for level names, create-once factories, <logfile> option checking, the reopen / close registry and logger set-up; logging package assumed; bounded stand-in for formats',
           'Proved: logging_level maps exactly the documented names (any letter case) to the documented numbers and otherwise accepts '
           'exactly integers 0..50; Factory.__call__ calls create() at most once and returns the same object thereafter (ghost '
-          'creation counter); FileHandlerFactory.__init__ raises ValueError exactly for the refused option combinations (max-size, '
-          'old-files, when, delay, encoding for STDOUT/STDERR; rotation without old-files; both when and max-size; old-files or '
-          'interval alone).',
-          'Not decided by contracts (DESIGN 7): formatter rendering / format validation (%-formatting, str.format, string.Template), '
-          'effects on streams of reopen / close, the logging package itself: bounded stand-in (level spellings, handler option '
-          'combinations, 1 706 formats, 2 500 operation histories). Two known findings open.' + STANDIN),
+          'creation counter); FileHandlerFactory.__init__ raises ValueError exactly for the refused option combinations; '
+          'LoggerFactoryBase.create returns THE logger of the configured name with the configured level, has called every handler '
+          'factory and adds at most one handler per handler section; LoggerFactory.create sets the propagate flag; reopenFiles acts on '
+          'exactly the handlers still alive among the registered weak references, once each, in order (ghost log), over a snapshot of '
+          'the registry; closeFiles empties the registry; _remove_from_reopenable removes a reference once or ignores it.',
+          'Not decided by contracts (DESIGN 7): formatter rendering / format validation, the order of the handlers of a logger, '
+          'effects on streams, the handler classes with *args / **kw constructors, the logging package itself: bounded stand-in '
+          '(level spellings, handler option combinations, 1 706 formats, 2 500 operation histories). Two known findings open.' + STANDIN),
+
 }
 NOT_APPLICABLE = {}
